@@ -45,6 +45,7 @@ func init() {
 		Exceptions:  []report.Exception{swapInit},
 		Floors:      []report.Floor{{Rule: "R-INIT", Min: 84}, {Rule: "R-CTOR", Min: 16}},
 		Build: func(c *Ctx) {
+			c.ruleBuildConstraints() // premise: no source file hides behind a build tag none of the analysed configurations sets
 			for _, cfg := range c.Configs() {
 				a := c.Eff(cfg)
 				if a == nil {
